@@ -56,7 +56,7 @@ META = {
 def run(ctx):
     obs = ctx.obs
     obs.extra['meta'] = META
-    for case, rng in ctx.cases(ctx.n(220, 6000)):
+    for case, rng in ctx.cases(ctx.n(220, 15000)):
         conv = CONVENTIONS[case % len(CONVENTIONS)]
         spec = {'case': case, 'convention': conv}
         ctx.run_case(spec, one_dataset, obs, rng, conv, spec)
